@@ -182,3 +182,52 @@ pub fn run_seq_sweep(arm: &str, seed: u64, run: u64, agg: &mut Agg, explicit: Op
 }
 
 pub fn is_pooled_longarc(sc: &Scenario) -> bool { sc.dd == Dd::Pooled && sc.table.irrelevant.iter().any(|r| r.iter().any(|x| *x)) }
+
+/// Fault enumeration over the pre-emption point: for one sampled tiny (instance, configuration, thread count) the non
+/// pre-emptive schedule is executed, then EVERY single pre-emption (step i, switch to another enabled worker t) is
+/// executed, plus a sample of double pre-emptions. With `cutoff` the cutoff index is drawn once per instance.
+pub fn run_preempt_sweep(arm: &str, seed: u64, run: u64, agg: &mut Agg, pre: &dyn Fn(&Scenario)) -> Option<ViolationRecord> {
+    use crate::sched::Strategy;
+    let cutoff = arm.ends_with("-cutoff");
+    let mut rng = crate::rng::Rng::new(seed ^ 0x5EED);
+    let mut sc = solve::generate(arm, seed, ArmOpts { parallel: true, cut: cutoff, max_threads: 3, knapsack_quarters: 1, ..Default::default() });
+    if sc.threads < 2 { sc.threads = 2; }
+    sc.strategy = Strategy::Explicit(vec![]);
+    agg.runs += 1;
+    let exec = |sc: &Scenario, agg: &mut Agg| -> (Outcome, Vec<Violation>) { pre(sc); let out = solve::execute(sc); let v = solve::judge(sc, &out); agg.add("sweep_executions", 1); (out, v) };
+    let (base, bv) = exec(&sc, agg);
+    let mk = |sc: &Scenario, v: Vec<Violation>| Some(ViolationRecord { arm: arm.into(), seed, run, violations: v, replay: json!({"kind": "solver", "scenario": sc}) });
+    if !bv.is_empty() { return mk(&sc, bv); }
+    let rep = match &base.sched { Some(r) => r.clone(), None => return None };
+    let steps = rep.schedule.len();
+    agg.add("preempt_sweep_instances", 1); agg.add("preempt_sweep_baseline_steps", steps as u64);
+    if steps > 1200 { agg.add("preempt_sweep_skipped_too_long", 1); return None; }
+    let mut singles: Vec<(u32, u8)> = vec![];
+    for i in 0..steps { for t in 0..16u8 { if rep.enabled_masks[i] >> t & 1 == 1 && t != rep.schedule[i] { singles.push((i as u32, t)); } } }
+    agg.add("fault:single_preemptions_enumerated", singles.len() as u64);
+    let mut traces = fxhash::FxHashSet::default();
+    for (i, t) in singles.iter() {
+        let mut s2 = sc.clone(); s2.strategy = Strategy::Explicit(vec![(*i, *t)]);
+        let (out, v) = exec(&s2, agg);
+        if let Some(r) = &out.sched { if traces.insert(r.stats.trace_hash) { agg.distinct_case(crate::rng::mix(hash_json(&sc.table), r.stats.trace_hash)); } for st in r.stats.abstract_states.iter() { agg.abstract_states.insert(*st); } }
+        if !v.is_empty() { return mk(&s2, v); }
+    }
+    // a sample of double pre-emptions: the second one is drawn among the alternatives of the run with the first one
+    let doubles = 40.min(singles.len());
+    for _ in 0..doubles {
+        let (i1, t1) = singles[rng.below(singles.len())];
+        let mut s1 = sc.clone(); s1.strategy = Strategy::Explicit(vec![(i1, t1)]);
+        let (o1, _) = exec(&s1, agg);
+        let r1 = match &o1.sched { Some(r) => r, None => continue };
+        let later: Vec<(u32, u8)> = (i1 as usize + 1..r1.schedule.len()).flat_map(|i| (0..16u8).filter(move |t| r1.enabled_masks[i] >> t & 1 == 1 && *t != r1.schedule[i]).map(move |t| (i as u32, t))).collect();
+        if later.is_empty() { continue; }
+        let (i2, t2) = later[rng.below(later.len())];
+        let mut s2 = sc.clone(); s2.strategy = Strategy::Explicit(vec![(i1, t1), (i2, t2)]);
+        let (out, v) = exec(&s2, agg);
+        agg.add("fault:double_preemptions_sampled", 1);
+        if let Some(r) = &out.sched { if traces.insert(r.stats.trace_hash) { agg.distinct_case(crate::rng::mix(hash_json(&sc.table), r.stats.trace_hash)); } }
+        if !v.is_empty() { return mk(&s2, v); }
+    }
+    agg.sample(|| json!({"arm": arm, "seed": seed, "threads": sc.threads, "baseline_steps": steps, "single_preemptions": singles.len(), "distinct_traces": traces.len(), "config": {"dd": sc.dd, "cache": sc.cache, "nodup": sc.nodup, "width": sc.width, "cut": sc.cut}, "instance": {"n": sc.table.n, "s": sc.table.s, "next": sc.table.next, "cost": sc.table.cost}}));
+    None
+}
